@@ -15,10 +15,11 @@ def evsFirst : List Ev → Option Failure
   | .failure f :: _ => some f
   | _ :: es => evsFirst es
 
-/-- the text printed among the events of a test -/
+/-- the text collected from the events (what tests print, and the runner's "Test run of" line per repetition) -/
 def evsPrinted : List Ev → Bytes
   | [] => []
   | .print x :: es => x ++ evsPrinted es
+  | .testRun _ n :: es => testRunText n ++ evsPrinted es
   | _ :: es => evsPrinted es
 
 /-- only prints, failures and the -vv progress trace (what a test sends between its start and end) -/
